@@ -5,8 +5,13 @@
 //
 // It decides nothing; spec/PeeringTrace.tla (TLC) judges the events.
 //
+// End-to-end behaviours (commands xcfg / xreg / xdereg) run a real exporting cluster and a real
+// importing cluster joined by a stream; their events carry additionally
+//
+//	{xpre?, xcat, xcfg, settle, wire}   (exporter's catalog / stored config entry, settle facts)
+//
 //	h-peer replay -in behaviours.json -out trace.ndjson [-fault kind]
-//	h-peer random -seed S -n N -len L -out trace.ndjson [-profile import|export]
+//	h-peer random -seed S -n N -len L -out trace.ndjson [-profile import|export|e2e]
 package main
 
 import (
@@ -135,6 +140,71 @@ func run(bi int, beh []M, rec *recorder, fault ph.Fault, seen map[string]bool) {
 	}
 }
 
+func isE2E(beh []M) bool {
+	for _, c := range beh {
+		switch ph.Str(c["t"]) {
+		case "xcfg", "xreg", "xdereg":
+			return true
+		}
+	}
+	return false
+}
+
+// runE2E executes one end-to-end behaviour: seed (importer's own rows + exporter's initial local
+// catalog), open the stream, then one settled observation per command.
+func runE2E(bi int, beh []M, rec *recorder) {
+	peer, consumer := "p1", "c1"
+	for _, c := range beh {
+		if p := ph.Str(c["peer"]); p != "" {
+			peer = p
+		}
+		if p := ph.Str(c["consumer"]); p != "" {
+			consumer = p
+		}
+	}
+	e, err := ph.NewE2E(peer, consumer, peersOf(beh))
+	if err != nil {
+		fatal("e2e world: %v", err)
+	}
+	defer e.Close()
+	opened := false
+	for ki, c := range beh {
+		ev := M{"b": bi, "k": ki, "cmd": c}
+		if ki == 0 {
+			ev["pre"] = e.I.Catalog()
+			ev["xpre"] = e.X.Catalog()
+		}
+		switch ph.Str(c["t"]) {
+		case "seed":
+			res := e.I.Seed(c)
+			for _, x := range ph.List(c["xrows"]) {
+				if r := e.XRegister(x.(map[string]any)); r["ok"] != true {
+					res = r
+				}
+			}
+			ev["res"] = res
+		case "xcfg":
+			ev["res"] = e.XConfig(c)
+		case "xreg":
+			ev["res"] = e.XRegister(c)
+		case "xdereg":
+			ev["res"] = e.XDeregister(c)
+		default:
+			fatal("command %v cannot be mixed into an end-to-end behaviour", c["t"])
+		}
+		if !opened {
+			e.Open()
+			opened = true
+		}
+		ev["settle"] = e.WaitSettled(ki == len(beh)-1)
+		ev["wire"] = e.Facts()
+		ev["xcfg"] = e.XConfigRead()
+		ev["xcat"] = e.X.Catalog()
+		ev["post"] = e.I.Catalog()
+		rec.emit(ev)
+	}
+}
+
 func replay(in, out string, fault ph.Fault) {
 	raw, err := os.ReadFile(in)
 	if err != nil {
@@ -151,6 +221,10 @@ func replay(in, out string, fault ph.Fault) {
 	rec := &recorder{w: bufio.NewWriterSize(f, 1<<20)}
 	seen := map[string]bool{}
 	for bi, b := range behs {
+		if isE2E(b) {
+			runE2E(bi, b, rec)
+			continue
+		}
 		run(bi, b, rec, fault, seen)
 	}
 	rec.w.Flush()
@@ -425,6 +499,169 @@ func (g *gen) export() []M {
 	return []M{{"t": "export", "cfg": cfg, "lsvcs": lsvcs, "resolvers": res, "peer": g.pick(peers[:3])}}
 }
 
+// ---------------------------------------------------------------- end-to-end random driver
+//
+// One exported-services write replaces the whole Services list: add one, remove one, swap
+// (remove some, add at least as many), arbitrary replacement, wildcard on / off, consumers of
+// other peers mixed in. After a write that un-exported something the next command is, most of the
+// time, a catalog change of an un-exported service (new instance, health or version change,
+// deregistration) while the stream stays open.
+
+type einst struct{ svc, node, id, ver, st string }
+
+type egen struct {
+	g     *gen
+	svcs  []string
+	nodes []string
+	exact map[string]bool // exported by name to c1
+	wild  bool
+	insts map[string]*einst // key node/id
+	nst   map[string]string // node check per node
+	chase []string
+}
+
+func (e *egen) eff() map[string]bool {
+	out := map[string]bool{}
+	for s := range e.exact {
+		out[s] = true
+	}
+	if e.wild {
+		for _, i := range e.insts {
+			out[i.svc] = true
+		}
+	}
+	return out
+}
+
+func (e *egen) cfgCmd() M {
+	r := e.g.r
+	before := e.eff()
+	names := append([]string{}, e.svcs...)
+	cur := []string{}
+	rest := []string{}
+	for _, s := range names {
+		if e.exact[s] {
+			cur = append(cur, s)
+		} else {
+			rest = append(rest, s)
+		}
+	}
+	r.Shuffle(len(cur), func(i, j int) { cur[i], cur[j] = cur[j], cur[i] })
+	r.Shuffle(len(rest), func(i, j int) { rest[i], rest[j] = rest[j], rest[i] })
+	switch k := r.Intn(10); {
+	case k < 2 && len(rest) > 0: // add one
+		e.exact[rest[0]] = true
+	case k < 4 && len(cur) > 0: // remove one
+		delete(e.exact, cur[0])
+	case k < 7 && len(cur) > 0 && len(rest) > 0: // swap: remove m, add at least m
+		m := 1 + r.Intn(len(cur))
+		if m > len(rest) {
+			m = len(rest)
+		}
+		add := m + r.Intn(len(rest)-m+1)
+		for _, s := range cur[:m] {
+			delete(e.exact, s)
+		}
+		for _, s := range rest[:add] {
+			e.exact[s] = true
+		}
+	case k < 8: // wildcard on / off
+		e.wild = !e.wild
+	default: // arbitrary replacement
+		e.exact = map[string]bool{}
+		for _, s := range names {
+			if r.Intn(2) == 0 {
+				e.exact[s] = true
+			}
+		}
+	}
+	after := e.eff()
+	e.chase = nil
+	for s := range before {
+		if !after[s] {
+			e.chase = append(e.chase, s)
+		}
+	}
+	sort.Strings(e.chase)
+	cfg := []any{}
+	ex := []string{}
+	for s := range e.exact {
+		ex = append(ex, s)
+	}
+	sort.Strings(ex)
+	for _, s := range ex {
+		ps := []any{"c1"}
+		if r.Intn(3) == 0 {
+			ps = append(ps, "c2")
+		}
+		cfg = append(cfg, M{"name": s, "peers": ps})
+	}
+	if e.wild {
+		cfg = append(cfg, M{"name": "*", "peers": []any{"c1"}})
+	}
+	for _, s := range names { // entries that name only the other consumer
+		if !e.exact[s] && r.Intn(3) == 0 {
+			cfg = append(cfg, M{"name": s, "peers": []any{"c2"}})
+		}
+	}
+	r.Shuffle(len(cfg), func(i, j int) { cfg[i], cfg[j] = cfg[j], cfg[i] })
+	return M{"t": "xcfg", "peer": "p1", "consumer": "c1", "cfg": cfg}
+}
+
+func (e *egen) regCmd(svc string) M {
+	r := e.g.r
+	n := e.g.pick(e.nodes)
+	id := fmt.Sprintf("%s-%d", svc, 1+r.Intn(2))
+	key := n + "/" + id
+	i := e.insts[key]
+	if i != nil && r.Intn(4) == 0 {
+		delete(e.insts, key)
+		return M{"t": "xdereg", "peer": "p1", "consumer": "c1", "node": n, "id": id, "name": svc}
+	}
+	if i == nil {
+		i = &einst{svc: svc, node: n, id: id, ver: "1", st: "passing"}
+		e.insts[key] = i
+	} else if r.Intn(2) == 0 {
+		i.ver = e.g.pick([]string{"1", "2", "3"})
+	}
+	i.st = e.g.pick([]string{"passing", "critical", "warning", "none"})
+	if r.Intn(4) == 0 {
+		e.nst[n] = e.g.pick([]string{"passing", "critical", "none"})
+	}
+	if e.nst[n] == "" {
+		e.nst[n] = "none"
+	}
+	return M{"t": "xreg", "peer": "p1", "consumer": "c1", "node": n, "addr": "10.2.0." + n[1:], "id": id, "name": svc, "cid": id + ":c", "ver": i.ver, "st": i.st, "nst": e.nst[n]}
+}
+
+func (g *gen) e2eBehaviour(length int) []M {
+	e := &egen{g: g, svcs: []string{"web", "api", "db", "cache"}, nodes: []string{"n1", "n2", "n3"},
+		exact: map[string]bool{}, insts: map[string]*einst{}, nst: map[string]string{}}
+	xrows := []any{}
+	for _, s := range e.svcs {
+		if g.r.Intn(4) > 0 {
+			c := e.regCmd(s)
+			if c["t"] == "xreg" {
+				xrows = append(xrows, c)
+			}
+		}
+	}
+	beh := []M{{"t": "seed", "rows": g.seedRows(), "xrows": xrows, "peer": "p1", "consumer": "c1"}}
+	for len(beh) < length {
+		switch {
+		case len(e.chase) > 0 && g.r.Intn(5) > 0:
+			s := g.pick(e.chase)
+			e.chase = nil
+			beh = append(beh, e.regCmd(s))
+		case g.r.Intn(5) < 2:
+			beh = append(beh, e.regCmd(g.pick(e.svcs)))
+		default:
+			beh = append(beh, e.cfgCmd())
+		}
+	}
+	return beh
+}
+
 func random(seed int64, n, length int, profile, out string) {
 	f, err := os.Create(out)
 	if err != nil {
@@ -438,6 +675,8 @@ func random(seed int64, n, length int, profile, out string) {
 	for i := 0; i < n; i++ {
 		if profile == "export" {
 			run(i, g.export(), rec, ph.FaultNone, nil)
+		} else if profile == "e2e" {
+			runE2E(i, g.e2eBehaviour(length), rec)
 		} else {
 			run(i, g.behaviour(length), rec, ph.FaultNone, nil)
 		}
@@ -457,7 +696,7 @@ func main() {
 	seed := fs.Int64("seed", 1, "random seed")
 	n := fs.Int("n", 10, "number of random behaviours")
 	length := fs.Int("len", 20, "commands per random behaviour")
-	profile := fs.String("profile", "import", "import | export")
+	profile := fs.String("profile", "import", "import | export | e2e")
 	fault := fs.String("fault", "", "binding demonstration only: dropdereg | touchlocal | overexport")
 	fs.Parse(os.Args[2:])
 	switch os.Args[1] {
